@@ -214,6 +214,11 @@ def matSys (M B K : Mat α) (h : α) (solveWith : Mat α → Vec α → Vec α) 
   let A0p := pre (matA0 M B K h)
   { h := h, K := matVec K, B := matVec B, solve := solve, A1 := matVec A1p, A0 := matVec A0p }
 
+/-- rf rows of a coupled system: `d[rf] = la.lu_solve(ikrf, force[rf])`, column by column, with
+`ikrf = lu_factor(krf)`; `solveWith krf` stands for the factor/solve pair -/
+def rfStaticMat (krf : Mat α) (solveWith : Mat α → Vec α → Vec α) (Frf : List (Vec α)) : List (Vec α) :=
+  Frf.map (solveWith krf)
+
 end matrix
 
 end PyYetiVerif.Newmark
